@@ -23,7 +23,9 @@ RULE = ("as C05 (strings of the grammar, composition trees, push_* sequences) wi
         "None must be emitted — oracle only, the model has no overflow; plus clip steps (push_clipper; fully parenthesised "
         "token streams rendered from a tree that is the oracle's reference): every bound configuration x clip of an input / "
         "of a sum / as left or right operand / of a clip x missing encoding x flag, and random trees with clips; plus tiny "
-        "non-zero denominators (2^-40, differences of nearly equal operands): a value must be emitted.  non-trivial = >=2 operators of >=2 kinds (or a grid case)")
+        "non-zero denominators (2^-40, differences of nearly equal operands): a value must be emitted; plus staggered starts (streams holding backlogs of older samples when the engine starts) "
+        "where the skipped samples and those of the synchronised timestamp differ in missing-ness (None/NaN/+-inf vs value, both "
+        "directions, flags per build and per stream): None exactly when an input needed for THAT timestamp is missing.  non-trivial = >=2 operators of >=2 kinds (or a grid case)")
 
 ENC = [None, "nan", "inf", "-inf"]
 
@@ -84,6 +86,7 @@ def run(ctx: Ctx) -> None:
     cases += g.tiny_cases()
     n = ctx.budget(quick=4000, thorough=50000)
     cases += g.gen_clip_cases(ctx, max(150, n // 12), p_missing=0.3)
+    cases += g.backlog_missing_cases(ctx, max(100, n // 20))
     cases += gen_cases(ctx, n, p_missing=0.25, per_id_flags=0.4)
     # results that are not finite although every input is: judged by the oracle only (no exact-rational counterpart)
     g.check_nonfinite(ctx, g.gen_nonfinite_cases(ctx, max(200, n // 10)))
